@@ -563,9 +563,9 @@ func replayMain(a []string) int {
 		return 0
 	}
 	env := &sim.Env{Prop: rp.Check, Tier: "replay"}
-	limit := uint64(5) << 30
+	limit := uint64(24) << 30
 	if sim.RaceBuild {
-		limit = 12 << 30
+		limit = 40 << 30
 	}
 	sim.WatchMemory(limit, func(mib uint64) {
 		fmt.Printf("VIOLATION property=%s replay=%s\n", rp.Property, a[0])
